@@ -102,6 +102,11 @@ def regen():
         extract_params.generate(REPO, os.path.join(LEAN, 'Plotink', 'Gen'))
     except ImportError:
         pass
+    try:
+        import pyio2lean
+        rep.update(pyio2lean.generate(REPO, os.path.join(LEAN, 'Plotink', 'Gen')))
+    except ImportError:
+        pass
     return rep
 
 
